@@ -4,17 +4,17 @@
 P=$1; W=$2; NAME=$3; TIER=${4:-quick}
 S=$W/_seed
 [ -f $S/patch.diff ] || { echo "no patch"; exit 2; }
-echo "== demo on original"; OF_SRC=/repo/src timeout 600 /venv/bin/python $S/demo.py 2>&1 | grep -v -i "warn\|wire_symbols" | tail -2; r0=${PIPESTATUS[0]}
-echo "== demo on changed"; OF_SRC=$W/src timeout 600 /venv/bin/python $S/demo.py 2>&1 | grep -v -i "warn\|wire_symbols" | tail -2; r1=${PIPESTATUS[0]}
+echo "== demo on original"; OF_SRC=/repo/src timeout 300 /venv/bin/python $S/demo.py 2>&1 | grep -v -i "warn\|wire_symbols" | tail -2; r0=${PIPESTATUS[0]}
+echo "== demo on changed"; OF_SRC=$W/src timeout 300 /venv/bin/python $S/demo.py 2>&1 | grep -v -i "warn\|wire_symbols" | tail -2; r1=${PIPESTATUS[0]}
 echo "demo exit codes: original=$r0 changed=$r1"
 cd /repo && git status --short | grep -v '^??' | head -3
 mkdir -p /tmp/seed
 if [ -n "$NOAPPLY" ]; then
   # run the check against the seed worktree itself (VERIF_REPO), leaving /repo untouched (usable while other checks run)
-  cd /verif && VERIF_REPO=$W PYTHONPATH=/verif/harness:$W/src VERIF_SEED=${VERIF_SEED:-0} timeout 3000 ./check $P --tier $TIER > /tmp/seed/$NAME.check.out 2>&1; rc=$?
+  cd /verif && VERIF_REPO=$W PYTHONPATH=/verif/harness:$W/src VERIF_SEED=${VERIF_SEED:-0} timeout 1500 ./check $P --tier $TIER > /tmp/seed/$NAME.check.out 2>&1; rc=$?
 else
   git -C /repo apply $S/patch.diff || { echo "patch does not apply"; exit 2; }
-  cd /verif && VERIF_SEED=${VERIF_SEED:-0} timeout 3000 ./check $P --tier $TIER > /tmp/seed/$NAME.check.out 2>&1; rc=$?
+  cd /verif && VERIF_SEED=${VERIF_SEED:-0} timeout 1500 ./check $P --tier $TIER > /tmp/seed/$NAME.check.out 2>&1; rc=$?
   git -C /repo checkout -- .
 fi
 echo "check exit=$rc"; grep -c VIOLATION /tmp/seed/$NAME.check.out; grep -m3 "^#\|VIOLATION" /tmp/seed/$NAME.check.out | cut -c1-300
